@@ -1132,6 +1132,12 @@ def generate(unit, template_text, repo_root, units_dir=None):
                 raise GenError("lost anchor %r (#%d) in %s [template line %d]" % (anchor, nth, where, tl))
             i = hits[nth - 1]
             info = dict(kind="hint", fn=fid, tline=tl, props=props)
+            mt = re.match(r"^\s*\[([A-Z0-9,]+)\]\s*(.*)$", text)
+            if mt:
+                # a tagged inline assertion is part of the CONTRACT (an intermediate clause about the code, e.g. the witness of an
+                # existential postcondition), not proof glue: its failure refutes the clause for the tagged properties
+                info = dict(info, props=[x for x in mt.group(1).split(",") if x], semantic=True)
+                text = mt.group(2)
             if pos == "before":
                 out_lines.insert(i, (text, info))
             else:
